@@ -11,12 +11,25 @@ Added probe families (s1):
   * endianness histories: ONE cstruct instance lives through epochs (parse-then-dump, `cs.endian` switched, parse-then-dump,
     both orders, sometimes back); byte fidelity is evaluated in every epoch with the mask for the current byte order, for
     structures and for standalone scalar / enum / array types (s1_hist).
+
+Added probe families (round 10, harness/v10_c02.py): LONG INPUTS AND BLOCK BOUNDARIES x PUBLIC ENTRY POINTS
+  * long_members: generated structures { static head; [length field]; LONG dynamic member; [second dynamic member]; static tail }
+    (the long member optionally inside a nested structure) with char x[] / wchar x[] / T x[] (integer, enum, flag, small structure)
+    or x[expr], whose encoded length sits on and around 255/256, 511/512, 1023/1024/1025, 2047/2048, 4095/4096/4097,
+    8191/8192/8193, 16 K, 32 K, 65535/65536/65537 bytes; x endianness x packed/aligned x interpreted/compiled.  The same
+    input goes through every public entry point (class call on BytesIO / bytes / bytearray / memoryview / real files buffered and
+    unbuffered / mmap / BufferedReader / a minimal read-seek-tell object, T.read, T.reads, T._read and cs.read at a non-zero
+    stream offset, a class loaded with cs.loadfile) and every dump spelling (v.dumps(), T.dumps(v), bytes(v), T.write / v.write
+    into BytesIO and a real file).  Oracle: bytes consumed (stream position) == reference extent == len(dump), dump == input
+    under the reference parser's data mask; entry points that reject or disagree are reported.  Small cases also go to the model.
+  * long_arrays: standalone array types built through the API (cs.<t>[None], cs.<t>[count], cs._make_array, cs.resolve) on
+    the same sizes with data following; consumed == length of the encoding the harness produced, dumps == that encoding.
 """
 from __future__ import annotations
 
 import itertools
 
-from .. import defs, impl, refimpl, s1_hist, s1_leb, s1_mixed
+from .. import defs, impl, refimpl, s1_hist, s1_leb, s1_mixed, v10_c02
 from ..common import Result, mkrng
 from ..structprops import Engine, load, real_parse, rand_bytes, has_eof, has, has_float, union_anon_nested
 
@@ -283,6 +296,11 @@ def run(env) -> Result:
                 "the mask from the independent reference parser. Plus: standalone LEB128 types on all canonical 1/2-byte and boundary 3+-byte "
                 "encodings; structures whose LEB128 members are rewritten to boundary encodings (canonical by an independent rule); "
                 "histories on one instance (parse-dump, cs.endian switched, parse-dump) for structures and standalone types. "
+                "Plus (round 10): structures with one LONG dynamically sized member (char/wchar/T x[], x[expr]; encoded length on and around "
+                "255..65537-byte block boundaries) followed by further members, and standalone API-built array types of those sizes, each "
+                "input parsed through every public entry point (class call / read / reads / _read / cs.read / loadfile class on bytes, "
+                "bytearray, memoryview, BytesIO at an offset, BufferedReader, real files, mmap, a minimal stream object) and dumped through "
+                "every dump spelling: consumed (stream position) == reference extent == len(dump) and dump == x & mask. "
                 "distinct = (definition, config, input); non-trivial = consumed >= 2 bytes and >= 2 fields")
     eng = Engine(env, res, "C02")
     rnd = mkrng(env["seed"], "c02")
@@ -312,6 +330,9 @@ def run(env) -> Result:
     leb_structures(eng, res, mkrng(env["seed"], "c02-leb"), tier)
     endian_histories(eng, res, mkrng(env["seed"], "c02-endian-history"), tier)
     mixed_alignment(eng, res, mkrng(env["seed"], "c02-mixed"), tier)
+    eng.flush()
+    v10_c02.long_members(eng, res, mkrng(env["seed"], "c02-long-members"), tier)
+    v10_c02.long_arrays(eng, res, mkrng(env["seed"], "c02-long-arrays"), tier)
     eng.flush()
     return res
 
